@@ -1011,7 +1011,9 @@ impl FrameCase {
     }
     /// Renders the case as one test named `name`, appended to `lines`.
     fn render_into(&self, lines: &mut Vec<String>, p: &Prog, name: &str, wrap_name: &str) -> TestExp {
-        let wrap = if self.kind() == Kind::Const { Some(wrap_name) } else { None };
+        // (a subroutine that stands outside the test block is a label of the enclosing scope: in a file that holds
+        // several tests each of them needs a scope of its own, or the labels collide)
+        let wrap = if self.kind() == Kind::Const || self.frame == Frame::SubOutside { Some(wrap_name) } else { None };
         let expr = self.pred.map(|p| p.expr()).unwrap_or_default();
         let assertion = self.assertion.map(|a| (a.0, expr.as_str(), a.4));
         let assert_line = render_test(lines, p, assertion, name, wrap);
@@ -1606,8 +1608,17 @@ fn replay_case(ctx: &Ctx, case: &Value) -> i32 {
 // ------------------------------------------------------------------------------------------
 
 fn batch_files(cases: &[FrameCase]) -> Vec<FileCase> {
-    cases
-        .chunks(BATCH)
+    // An assertion about the program counter was derived for a test that starts at BASE. Code outside the test blocks
+    // (the subroutines of the `sub-outside-test` frame) is assembled in front of every later test of the same file, so
+    // such a case gets a file of its own.
+    let (solo, shared): (Vec<FrameCase>, Vec<FrameCase>) = cases.iter().cloned().partition(|c| c.frame == Frame::SubOutside && c.kind() == Kind::Pc);
+    // (and no test stands behind a `sub-outside-test` case of another kind in a file with program counter assertions)
+    let (pc_cases, other): (Vec<FrameCase>, Vec<FrameCase>) = shared.into_iter().partition(|c| c.kind() == Kind::Pc);
+    let mut chunks: Vec<Vec<FrameCase>> = solo.into_iter().map(|c| vec![c]).collect();
+    chunks.extend(pc_cases.chunks(BATCH).map(|c| c.to_vec()));
+    chunks.extend(other.chunks(BATCH).map(|c| c.to_vec()));
+    chunks
+        .iter()
         .map(|chunk| {
             let mut lines: Vec<String> = vec![];
             if chunk.iter().any(|c| c.kind() == Kind::Const) {
